@@ -2313,7 +2313,7 @@ pub fn run(replay: Option<&str>) -> Report {
     rep.machinery_error = acc.machinery;
     rep.notes.push("assume: the NLRI content of flowspec / BGP-LS / MUP / SR-policy is read with the repository's own decoder under the peer's codec (no independent walker for these families); framing, lengths and attribute structure are read independently for all families".into());
     rep.notes.push("assume: an Err from encode_to is accepted only for an input that cannot be encoded and only if the buffer holds nothing but complete well-formed frames; Reach / Unreach with zero entries are checked for framing only".into());
-    rep.notes.push("assume: 1024 capability pairs are run on 4 families (thorough); elsewhere the 16 pairs that reach every negotiated outcome (2-byte AS, extended message, extended next hop, add-path tx)".into());
+    rep.notes.push("assume: 1024 capability pairs are run on 4 families (thorough); elsewhere the 32 pairs that reach every negotiated outcome (2-byte AS, extended message, extended next hop, add-path none / both / send-only / receive-only)".into());
     rep.exhaustive = true;
     rep
 }
